@@ -343,6 +343,9 @@ package godi
 //@   ensures[C03] transient_always_creates: d != nil && d.Lifetime == Transient ==> ncalls("scope.createInstance") == 1 && callarg("scope.createInstance", 0, 0) == s && callarg("scope.createInstance", 0, 1) == d
 //@        && result0 == callret("scope.createInstance", 0, 0) && result1 == callret("scope.createInstance", 0, 1)
 //@        && ncalls("scope.instancesMu.RLock") == 0 && ncalls("provider.singletons.Load") == 0
+//@   ensures[C13] overlapping_close_reports_the_disposed_error: ncalls("scope.createInstance") == 1 && callret("scope.createInstance", 0, 1) == nil ==> ncalls("atomic.Load:disposed") == 1
+//@        && (callret("atomic.Load:disposed", 0, 0, "int32") != 0 ==> result0 == nil && result1 == ErrScopeDisposed)
+//@        && (callret("atomic.Load:disposed", 0, 0, "int32") == 0 ==> result0 == callret("scope.createInstance", 0, 0) && result1 == nil)
 //@   ensures[C15,C08] not_found_is_classifiable: result1 != nil && d == nil ==> result0 == nil && typeis(result1, "*ResolutionError") && as(result1, "*ResolutionError").Cause == ErrServiceNotFound
 //@   ensures[C15] bad_lifetime: d != nil && d.Lifetime != Singleton && d.Lifetime != Scoped && d.Lifetime != Transient ==> result0 == nil && typeis(result1, "*LifetimeError")
 //@   ensures[C15] error_means_no_value: result1 != nil && (d == nil || d.Lifetime != Transient) ==> result0 == nil
